@@ -27,6 +27,11 @@ fn format_machine_uuid(rand1: u64, rand2: u32, secs: u32) -> String {
     format!("{:016X}{:08X}{:08X}", rand1, rand2, secs)
 }
 
+#[cfg(feature = "verif_hooks")]
+pub fn verif_format_machine_uuid(rand1: u64, rand2: u32, secs: u32) -> String {
+    format_machine_uuid(rand1, rand2, secs)
+}
+
 fn create_and_store_machine_uuid() -> Result<(), std::io::Error> {
     let now = std::time::SystemTime::now();
     let secs = now.duration_since(std::time::UNIX_EPOCH).unwrap().as_secs() as u32;
